@@ -44,6 +44,18 @@ EdgeBinFails(it) ==
   ELSE   (IF EdgeInterOK(it[1], it[2], it[3]) THEN {} ELSE {"edge_inter_set"})
     \cup (IF EdgeInterOK(it[2], it[1], it[4]) THEN {} ELSE {"edge_inter_rev_set"})
 
+\* with_corners with corners up to i32::MAX apart: an extent of exactly 2^31 pixels does not fit the specification's
+\* integers, so the recorder reports each size as <<0, size>> if it is below 2^31 and as <<1, size - 2^31 + 1>> otherwise.
+\* item = <<p, q, result top-left, <<width code, height code>>, panicked>>
+AxisFarOK(a, b, lo, sz) ==
+  LET mx == Max(a, b)  mn == Min(a, b)
+      far == mx >= -1 /\ mx - I32Max = mn IN         \* the corners are exactly i32::MAX apart (mx < -1: impossible)
+  lo = mn /\ sz = (IF far THEN <<1, 1>> ELSE <<0, mx - mn + 1>>)
+FarCornersFails(it) ==
+  LET p == it[1]  q == it[2] IN
+  IF it[5] = 1 THEN {"with_corners_far_panicked"}
+  ELSE IF AxisFarOK(p[1], q[1], it[3][1], it[4][1]) /\ AxisFarOK(p[2], q[2], it[3][2], it[4][2]) THEN {} ELSE {"with_corners_far"}
+
 \* doubled middle of a side that is treated as at least one pixel long
 Mid2(pos, len) == 2 * pos + Max(len, 1) - 1
 AnchorCOK(pos, len, k, v) ==
